@@ -614,7 +614,7 @@ impl Check for C05 {
         "C05"
     }
     fn workloads(&mut self, tier: Tier, _seed: u64) -> Vec<(String, u64)> {
-        vec![("single".into(), single_recipes().len() as u64), ("pairs".into(), pair_recipes().len() as u64), ("wide".into(), wide_recipes().len() as u64), ("random".into(), if tier == Tier::Quick { 300 } else { 20_000 })]
+        vec![("single".into(), single_recipes().len() as u64), ("pairs".into(), pair_recipes().len() as u64), ("wide".into(), wide_recipes().len() as u64), ("random".into(), if tier == Tier::Quick { 400 } else { 40_000 })]
     }
     fn run(&mut self, ctx: &mut Ctx, workload: &str, index: u64, rng: &mut Rng) {
         let r = match workload {
